@@ -53,6 +53,7 @@ let parse_cmd (s : string) : cmd =
   | ["xcl"; src; dst; f; b] -> AClone (abspath src, relpath dst, b01 f, bspec b)
   | ["xsr"; src; dst; f] -> ARestore (abspath src, relpath dst, b01 f)
   | ["xra"; p; i] -> ARemoveEntryAt (relpath p, nat_of_int (int_of_string i))
+  | ["xia"; p; i; k] -> AInsertEntryAt (relpath p, nat_of_int (int_of_string i), name_of_string k)
   | ["dt"] -> CDetach
   | ["at"] -> CAttach
   | _ -> failwith ("bad cmd " ^ s)
